@@ -347,7 +347,9 @@ def run_property(pid, tier="quick", seed=0, update_baseline=False, jobs=None):
         replay = o.get("replay")
         if kf:
             known_hit.append(o["name"])
-            lines.append(f"KNOWN-FINDING: property={pid} {kf[0].get('what', o['name'])}")
+            ln = f"KNOWN-FINDING: property={pid} {kf[0].get('what', o['name'])}"
+            if ln not in lines:  # one line per listed finding, however many obligations it matches
+                lines.append(ln)
             continue
         was_proved = baseline.get(_base(o["name"])) == "proved"
         confirmed = bool(replay and replay.get("violated"))
